@@ -569,6 +569,12 @@ fn attributes(node: dom::XmlNode) -> Vec<dom::XmlNode> {
 fn child(node: dom::XmlNode) -> Vec<dom::XmlNode> {
     let mut nodes = vec![];
 
+    // In the XPath data model an attribute node has a string-value but no children
+    // (the DOM exposes the pieces of its value as child nodes).
+    if node.node_type() == dom::NodeType::Attribute {
+        return nodes;
+    }
+
     for c in node.child_nodes().iter() {
         nodes.push(c.clone());
     }
@@ -579,7 +585,7 @@ fn child(node: dom::XmlNode) -> Vec<dom::XmlNode> {
 fn descendant(node: dom::XmlNode) -> Vec<dom::XmlNode> {
     let mut nodes = vec![];
 
-    for child in node.child_nodes().iter() {
+    for child in child(node) {
         nodes.push(child.clone());
 
         let mut desc = descendant(child);
